@@ -7,6 +7,7 @@ mod l_compile;
 mod l_resolve;
 mod l_wasm;
 mod l_lspdoc;
+mod l_syntax;
 
 fn main() {
     let args: Vec<String> = std::env::args().collect();
@@ -19,6 +20,7 @@ fn main() {
         "resolve" => l_resolve::run(),
         "wasm" => l_wasm::run(),
         "lspdoc" => l_lspdoc::run(),
+        "syntax" => l_syntax::run(),
         _ => {
             eprintln!("usage: oalimpl <layer>");
             std::process::exit(2);
